@@ -838,14 +838,22 @@ class Network:
         )
         self.peer_connections.append(connection)
 
-        await connection.connect()
-        await connection.send_message(
-            PeerInit.Request(
-                self._settings.credentials.username,
-                typ,
-                ticket
+        try:
+            await connection.connect()
+            await connection.send_message(
+                PeerInit.Request(
+                    self._settings.credentials.username,
+                    typ,
+                    ticket
+                )
             )
-        )
+
+        except asyncio.CancelledError:
+            # The attempt got cancelled (for example because the indirect
+            # connection won the race). Don't leave the half-opened connection
+            # behind in the list of peer connections
+            await connection.disconnect(CloseReason.REQUESTED)
+            raise
 
         self._finalize_peer_connection(connection)
 
@@ -936,6 +944,12 @@ class Network:
             await peer_connection.send_message(
                 PeerPierceFirewall.Request(message.ticket)
             )
+
+        except asyncio.CancelledError:
+            # Don't leave the half-opened connection behind in the list of
+            # peer connections
+            await peer_connection.disconnect(CloseReason.REQUESTED)
+            raise
 
         except NetworkError:
             await self.server_connection.send_message(
